@@ -46,6 +46,32 @@ CHECKS = {
   "Every program built from a minimal valid base plus every choice of <= 2 optional directive slots in every accepted spelling (shorthand/block/dot forms, quoted/unquoted, placeholders, repeated and multi-value forms, channel wrappers, named matchers, comments), and every string of length <= 2/3 over a lexical alphabet at each of the 241 value positions, is parsed; for each text that parses the formatted text must parse, compile to a reflect.DeepEqual runtime configuration with an equal validation result, and be a fixed point of the formatter.",
   "Interactions of three or more optional directives and ASTs that only management mutations can build are outside the bound; the slot table is checked against parser.go's keywords on every run.",
   "DESIGN.md §6 C19"),
+
+ "C01": ("crash", "fault_enumeration",
+  "crash-point enumeration by real process death: the child process running the scripted history on the real handlers and SQLite store is SIGKILLed before its n-th file-mutating syscall for every n, then the production restart path runs and a reference model of acknowledged operations judges the database",
+  "For each scripted history (ingress on a pull route and on a two-target fan-out route, Admin publish incl. a refused duplicate batch, pull dequeue / ack / nack / dead-letter / batch ack, explicit WAL checkpoints) every crash point is taken: SIGKILL before each of the K file-mutating syscalls (pwrite64, fsync, ftruncate, ...) SQLite issues, observed through a patched copy of the libc syscall trampoline. After each death the database is reopened through the production boot path and must open, pass integrity_check, have consistent counters, contain exactly one of the admissible outcomes (acknowledged operations exactly; the single unacknowledged operation applied, not applied, or a fan-out prefix; nothing nobody sent; no mixed fields) and offer every unsettled message again exactly once after lease expiry with identical payload and headers.",
+  "Process death only (page cache survives); power loss is not modelled. Acknowledgement = first WriteHeader/Write. Sequential histories (interleavings of concurrent requests: C03/C12 at store level).",
+  "DESIGN.md §4.3 §6 C01"),
+ "C07": ("enum", "exploration",
+  "bounded-exhaustive enumeration of bodies x header sets x ingress/publish paths x pull HTTP/gRPC/push delivery x backends x redelivery/restart histories through the real wiring, against an independent reference transformation",
+  "All byte strings of length <= 1 (quick, plus 1024 two-byte strings) / <= 2 (thorough), boundary sizes around max_body (8 B route and the 2 MiB default, Content-Length and chunked), every ordered selection of <= 2/3 header atoms (case variants, repeated names, empty values, the three sensitive names, UTF-8 values, forward-auth copy_headers) enter through ingress or Admin publish and leave through pull HTTP, the real gRPC server, the real PushDispatcher+HTTPDeliverer and GET /messages, on memory and SQLite, after first delivery, nack+redelivery and SQLite close+reopen; payload must be byte-identical and headers equal the reference (canonical names, comma-join in arrival order, sensitive names dropped, copy_headers added).",
+  "Framing headers (Host, Content-Length, Transfer-Encoding) are not compared; non-UTF-8 header values are outside the quantifier; Postgres not run.",
+  "DESIGN.md §6 C07"),
+ "C11": ("enum", "exploration",
+  "complete enumeration of the token-configuration x endpoint x operation x credential table over pull HTTP, worker gRPC (real server over an in-memory listener) and every Admin path x method, against a reference allowlist rule, with full state dumps before/after",
+  "Every configuration of global / per-route / admin token lists of the tier is compiled by the real compiler (which must reject exactly those leaving a pull route without an allowlist) and booted through the production startServers; every endpoint spelling x operation x credential (absent, empty, scheme variants, exact, prefix/suffix/case near-misses, other lists' tokens, override-replaces-global, multi-value headers) is sent over pull HTTP, gRPC metadata and every Admin path x method; unauthorised requests must get 401/Unauthenticated and leave a full state dump identical; authorised ones must not be refused as unauthorised.",
+  "Behaviour the documentation leaves undefined (scheme case, several Authorization values) is accepted either way and recorded; TLS/mTLS not involved.",
+  "DESIGN.md §6 C11"),
+ "C16": ("enum", "exploration",
+  "bounded-exhaustive enumeration of URL x resolver answer x policy (compiled from DSL) x redirect chains through the real HTTPDeliverer with an in-memory resolver and transport, against an independent address classifier and rule matcher",
+  "Every combination of scheme, 48 hosts (names incl. numeric look-alikes, every address class of the statement with its range edges, IPv4-mapped and zoned literals), userinfo/port, resolver answer class, and policy (https_only x redirects x dns_rebind_protection x allow x deny rule sets incl. mapped and CIDR forms), plus 1- and 2-hop redirect chains into every URL class, is delivered through the real Deliver; every request the transport saw must be allowed by the reference policy, a denied delivery must wrap ErrPolicyDenied and send nothing, redirects are followed only when enabled and each hop is checked; at dispatcher level a denied target ends dead(policy_denied) after one attempt.",
+  "'At the time of the check' (no rebinding between check and connect); what the OS resolver does with numeric names is not modelled; IDNA mapping of hosts by net/http is outside the statement.",
+  "DESIGN.md §6 C16"),
+ "C20": ("enum", "exploration",
+  "complete enumeration of the finite gating table (tool x role x flags x principal) with argument-shape variants through the real JSON-RPC Serve loop, with side-effect probes and an independent reference predicate",
+  "All 31 documented tools plus unknown names x 5 role inputs x mutations flag x runtime-control flag x principal presence, each with tools/list and tools/call and every argument-shape variant (unknown key, missing arguments, actor equal/mismatching/empty, missing reason, 8 path spellings, config_apply content x mode), are run against a seeded SQLite db, a config file, a pid file and recording stand-ins for the run binary and signalled process; allowed iff role rank, flag and principal/actor rule hold; refused calls have no effect; tools/list equals the allowed set; config-writing tools touch only the configured path with content that parses and compiles; every mutating call leaves exactly one audit record with the required fields.",
+  "No real hookaido process is started or signalled; Postgres proxy path not run; arbitrary argument strings beyond the listed alphabet are not enumerated.",
+  "DESIGN.md §6 C20"),
 }
 
 NOT_YET = "check not built yet (work in progress, see DESIGN.md §6)"
